@@ -147,9 +147,14 @@ class Report:
 def finding_matches(f, clause, replay):
     """A known finding lists the specific failing input: `match` is a dict of dotted-path -> value
     that must all be present in the replay, plus optional `clauses` restricting the judge clause."""
-    m = f.get("match") or {}
     if f.get("clauses") and clause not in f["clauses"]:
         return False
+    if f.get("match_any"):
+        return any(_match(m, replay) for m in f["match_any"])
+    return _match(f.get("match") or {}, replay)
+
+
+def _match(m, replay):
     for path, want in m.items():
         cur = replay
         for part in path.split("."):
@@ -161,6 +166,9 @@ def finding_matches(f, clause, replay):
                 return False
         if isinstance(want, dict) and "$in" in want:
             if cur not in want["$in"]:
+                return False
+        elif isinstance(want, dict) and "$prefix" in want:
+            if not (isinstance(cur, str) and cur.startswith(want["$prefix"])):
                 return False
         elif cur != want:
             return False
